@@ -16,6 +16,12 @@ CHECKS = {
             "public entry points with type-directed and hostile values under the non-waiving options; every accepted result is "
             "judged by an independent recursive conformance predicate.",
             "Trusted: vf/tspec.py:conforms and vf/constraints.py (documented constraint semantics); Python isinstance.", "3/C01"),
+    "C02": ("property-based testing (Hypothesis), boundary-directed: well-typed values on/next to every declared bound against independent documented constraint semantics; exhaustive int range grid; isinstance agreement",
+            "hypothesis",
+            "Exploration: generated legal constraint sets over 13 origins with values of exactly the source type concentrated on every "
+            "boundary; verdict, result equality and isinstance compared with an oracle written from the constraint documentation; "
+            "the int range grid ((gt|ge) x (lt|le) x bounds in [-3,3] x ints in [-6,6]) is enumerated completely on every run.",
+            "Trusted: vf/constraints.py (documented senses; Fraction arithmetic, fixed-point digit strings, re with \\Z); unspecified zones are silent and counted.", "3/C02"),
     "C04": ("property-based testing (Hypothesis) with hostile values; oracle = exception class + deterministic line-event budget (sys.monitoring) + body-entered flag",
             "hypothesis",
             "Exploration: hostile Python values against generated constrained/logical types through field, parameter, return and "
